@@ -6,7 +6,7 @@
    (converter.py: nullable, readOnly properties).
    Definitions only; the proofs are in Proofs_C01.v. *)
 From Coq Require Import List NArith ZArith Bool.
-From Verif Require Import Common.Str.
+From Verif Require Import Common.Str Common.Json.
 Import ListNotations.
 Open Scope Z_scope.
 
@@ -639,4 +639,402 @@ Fixpoint consistent_calls (seen : scache) (calls : list (N * gsettings)) : bool 
     | Some old => gs_eqb old g && consistent_calls seen rest
     | None => consistent_calls ((k, g) :: seen) rest
     end
+  end.
+
+(* ------------------------------------------------------------------------------------ *)
+(* 9. Aliasing: does a conversion change the document it is given?                        *)
+(*    converter.to_json_schema (copy flag, deepclone, rewrite_properties,                  *)
+(*    forbid_properties), core/transforms.transform (to_json_schema_recursive),            *)
+(*    references.InliningResolver.resolve_all, ConvertingResolver.resolve, and a history   *)
+(*    of conversions on ONE loaded raw document.                                           *)
+(*    Python containers are objects with an identity: every dict / list of a value carries *)
+(*    an id.  A mutation is addressed to an id and is seen by every value that contains    *)
+(*    a container with that id (upd).  A function returns its result together with the     *)
+(*    log of the mutations it performed (wlog); what any other live object looks like      *)
+(*    after the call is  apply_log log object.                                             *)
+(*    Fragment of this section: no nullable wrapping, no type file, no pattern merging     *)
+(*    (sections 1-7 model those); required / not.required hold strings; an existing not    *)
+(*    is a dict.                                                                           *)
+(* ------------------------------------------------------------------------------------ *)
+Inductive atom := ANull | ABool (b : bool) | AInt (z : Z) | AStr (s : str).
+Inductive pv :=
+| PA (a : atom)
+| PD (id : N) (kv : list (str * pv))
+| PL (id : N) (xs : list pv).
+
+(* a JSON document as Python objects: every container is a distinct object, numbered from n *)
+Fixpoint label (n : N) (j : json) : pv * N :=
+  match j with
+  | JNull => (PA ANull, n)
+  | JBool b => (PA (ABool b), n)
+  | JInt z => (PA (AInt z), n)
+  | JStr s => (PA (AStr s), n)
+  | JArr l =>
+      let '(xs, n') :=
+        (fix go (n : N) (l : list json) : list pv * N :=
+           match l with
+           | [] => ([], n)
+           | x :: r => let '(x', n1) := label n x in let '(r', n2) := go n1 r in (x' :: r', n2)
+           end) (n + 1)%N l in
+      (PL n xs, n')
+  | JObj kvs =>
+      let '(kv, n') :=
+        (fix go (n : N) (l : list (str * json)) : list (str * pv) * N :=
+           match l with
+           | [] => ([], n)
+           | (k, x) :: r => let '(x', n1) := label n x in let '(r', n2) := go n1 r in ((k, x') :: r', n2)
+           end) (n + 1)%N kvs in
+      (PD n kv, n')
+  end.
+
+Fixpoint erase (t : pv) : json :=
+  match t with
+  | PA ANull => JNull
+  | PA (ABool b) => JBool b
+  | PA (AInt z) => JInt z
+  | PA (AStr s) => JStr s
+  | PD _ kv => JObj ((fix go (l : list (str * pv)) : list (str * json) :=
+                        match l with [] => [] | (k, v) :: r => (k, erase v) :: go r end) kv)
+  | PL _ xs => JArr ((fix go (l : list pv) : list json :=
+                        match l with [] => [] | v :: r => erase v :: go r end) xs)
+  end.
+
+(* a predicate on every identity of a value *)
+Fixpoint all_ids (P : N -> bool) (t : pv) : bool :=
+  match t with
+  | PA _ => true
+  | PD i kv => P i && (fix go (l : list (str * pv)) : bool :=
+                         match l with [] => true | (_, v) :: r => all_ids P v && go r end) kv
+  | PL i xs => P i && (fix go (l : list pv) : bool :=
+                         match l with [] => true | v :: r => all_ids P v && go r end) xs
+  end.
+Definition lt_ids (n : N) (t : pv) : bool := all_ids (fun i => N.ltb i n) t.   (* t existed before the counter reached n *)
+Definition ge_ids (n : N) (t : pv) : bool := all_ids (fun i => N.leb n i) t.   (* t was allocated at or after n *)
+
+(* 1 + the largest identity *)
+Fixpoint bound (t : pv) : N :=
+  match t with
+  | PA _ => 0%N
+  | PD i kv => N.max (i + 1)%N ((fix go (l : list (str * pv)) : N :=
+                                  match l with [] => 0%N | (_, v) :: r => N.max (bound v) (go r) end) kv)
+  | PL i xs => N.max (i + 1)%N ((fix go (l : list pv) : N :=
+                                  match l with [] => 0%N | v :: r => N.max (bound v) (go r) end) xs)
+  end.
+
+(* core/transforms.deepclone: a structurally equal value made of new containers *)
+Fixpoint shift (n : N) (t : pv) : pv :=
+  match t with
+  | PA _ => t
+  | PD i kv => PD (i + n)%N ((fix go (l : list (str * pv)) : list (str * pv) :=
+                               match l with [] => [] | (k, v) :: r => (k, shift n v) :: go r end) kv)
+  | PL i xs => PL (i + n)%N ((fix go (l : list pv) : list pv :=
+                               match l with [] => [] | v :: r => shift n v :: go r end) xs)
+  end.
+(* deepclone at counter n (n above every live identity): the clone and the next counter *)
+Definition deepclone (n : N) (t : pv) : pv * N := (shift n t, (n + bound t)%N).
+
+(* the mutations the modelled functions perform on a container *)
+Inductive mutn :=
+| MDel (k : str)               (* del d[k]  /  d.pop(k, None) *)
+| MSet (k : str) (v : pv)      (* d[k] = v *)
+| MRemove (x : str)            (* l.remove(x), x a string *)
+| MExtend (ys : list pv).      (* l.extend(ys) *)
+
+Definition atom_is_str (x : str) (v : pv) : bool := match v with PA (AStr s) => str_eqb x s | _ => false end.
+Fixpoint remove_first (x : str) (l : list pv) : list pv :=
+  match l with [] => [] | v :: r => if atom_is_str x v then r else v :: remove_first x r end.
+
+Definition do_mut (m : mutn) (t : pv) : pv :=
+  match m, t with
+  | MDel k, PD i kv => PD i (assoc_remove k kv)
+  | MSet k v, PD i kv => PD i (assoc_set k v kv)
+  | MRemove x, PL i xs => PL i (remove_first x xs)
+  | MExtend ys, PL i xs => PL i (xs ++ ys)
+  | _, _ => t
+  end.
+
+(* the mutation m on the container i, as seen from the value t *)
+Fixpoint upd (i : N) (m : mutn) (t : pv) : pv :=
+  match t with
+  | PA _ => t
+  | PD j kv =>
+      let t' := PD j ((fix go (l : list (str * pv)) : list (str * pv) :=
+                         match l with [] => [] | (k, v) :: r => (k, upd i m v) :: go r end) kv) in
+      if N.eqb j i then do_mut m t' else t'
+  | PL j xs =>
+      let t' := PL j ((fix go (l : list pv) : list pv :=
+                         match l with [] => [] | v :: r => upd i m v :: go r end) xs) in
+      if N.eqb j i then do_mut m t' else t'
+  end.
+
+Definition wlog := list (N * mutn).
+Definition apply_log (lg : wlog) (t : pv) : pv := fold_left (fun t e => upd (fst e) (snd e) t) lg t.
+Definition targets_ge (n : N) (lg : wlog) : bool := forallb (fun e => N.leb n (fst e)) lg.
+
+(* working value, log so far, allocation counter *)
+Definition cst := (pv * wlog * N)%type.
+Definition cst_w (s : cst) : pv := fst (fst s).
+Definition emit (i : N) (m : mutn) (s : cst) : cst :=
+  let '(w, lg, n) := s in (upd i m w, lg ++ [(i, m)], n).
+Definition emit_opt (i : option N) (m : mutn) (s : cst) : cst := match i with Some i => emit i m s | None => s end.
+
+Definition s_required : str := [114; 101; 113; 117; 105; 114; 101; 100]%N.
+Definition s_properties : str := [112; 114; 111; 112; 101; 114; 116; 105; 101; 115]%N.
+Definition s_not : str := [110; 111; 116]%N.
+Definition s_type : str := [116; 121; 112; 101]%N.
+Definition s_object : str := [111; 98; 106; 101; 99; 116]%N.
+Definition s_readOnly : str := [114; 101; 97; 100; 79; 110; 108; 121]%N.
+Definition s_writeOnly : str := [119; 114; 105; 116; 101; 79; 110; 108; 121]%N.
+Definition s_xwriteOnly : str := [120; 45; 119; 114; 105; 116; 101; 79; 110; 108; 121]%N.
+Definition s_ref : str := [36; 114; 101; 102]%N.
+
+Definition root_id (t : pv) : option N := match t with PD i _ | PL i _ => Some i | PA _ => None end.
+Definition d_get (k : str) (t : pv) : option pv := match t with PD _ kv => assoc_get k kv | _ => None end.
+Definition d_get_id (k : str) (t : pv) : option N := match d_get k t with Some v => root_id v | None => None end.
+(* Python truth value *)
+Definition truthy (v : pv) : bool :=
+  match v with
+  | PA ANull => false
+  | PA (ABool b) => b
+  | PA (AInt z) => negb (z =? 0)
+  | PA (AStr s) => match s with [] => false | _ => true end
+  | PD _ kv => match kv with [] => false | _ => true end
+  | PL _ xs => match xs with [] => false | _ => true end
+  end.
+Definition get_truthy (k : str) (t : pv) : bool := match d_get k t with Some v => truthy v | None => false end.
+(* converter.py:90 is_read_only, :84 is_write_only (a bool subschema is neither) *)
+Definition is_read_only (sub : pv) : bool := get_truthy s_readOnly sub.
+Definition is_write_only (sub : pv) : bool := get_truthy s_writeOnly sub || get_truthy s_xwriteOnly sub.
+Definition list_has (x : str) (v : option pv) : bool :=
+  match v with Some (PL _ xs) => existsb (atom_is_str x) xs | _ => false end.
+Fixpoint dedup_strs (seen : list str) (l : list pv) : list pv :=
+  match l with
+  | [] => []
+  | PA (AStr s) :: r => if has_key s seen then dedup_strs seen r else PA (AStr s) :: dedup_strs (s :: seen) r
+  | v :: r => v :: dedup_strs seen r
+  end.
+
+(* converter.py:59-66, one iteration of the loop over list(schema.get(properties, {}).items()) *)
+Definition rw_step (pred : pv -> bool) (rid pid : option N) (acc : cst * list str) (item : str * pv) : cst * list str :=
+  let '(s, forb) := acc in
+  let '(name, sub) := item in
+  if pred sub then
+    let s1 := if list_has name (d_get s_required (cst_w s)) then emit_opt rid (MRemove name) s else s in
+    (emit_opt pid (MDel name) s1, forb ++ [name])
+  else acc.
+
+(* converter.py:74-79 forbid_properties on the schema object wid *)
+Definition forbid (wid : N) (forb : list str) (s : cst) : cst :=
+  (* not_schema = schema.setdefault(not, {}) *)
+  let '(s1, nid) :=
+    match d_get_id s_not (cst_w s) with
+    | Some i => (s, i)
+    | None => let '(w, lg, n) := s in (emit wid (MSet s_not (PD n [])) (w, lg, (n + 1)%N), n)
+    end in
+  (* already_forbidden = not_schema.setdefault(required, []) *)
+  let cur_not := fun (x : cst) => match d_get s_not (cst_w x) with Some d => d | None => PA ANull end in
+  let '(s2, lid) :=
+    match d_get_id s_required (cur_not s1) with
+    | Some i => (s1, i)
+    | None => let '(w, lg, n) := s1 in (emit nid (MSet s_required (PL n [])) (w, lg, (n + 1)%N), n)
+    end in
+  (* already_forbidden.extend(forbidden) *)
+  let s3 := emit lid (MExtend (map (fun x => PA (AStr x)) forb)) s2 in
+  (* not_schema[required] = list(set(chain(already_forbidden, forbidden))): a new list, order unspecified *)
+  let already := match d_get s_required (cur_not s3) with Some (PL _ xs) => xs | _ => [] end in
+  let '(w, lg, n) := s3 in
+  emit nid (MSet s_required (PL n (dedup_strs [] already))) (w, lg, (n + 1)%N).
+
+(* converter.py:57-71 rewrite_properties(schema, predicate) on the schema object wid = the root of the working value *)
+Definition rewrite_properties (pred : pv -> bool) (wid : N) (s : cst) : cst :=
+  let w := cst_w s in
+  let rid := d_get_id s_required w in
+  let pid := d_get_id s_properties w in
+  let items := match d_get s_properties w with Some (PD _ kv) => kv | _ => [] end in
+  let '(s1, forb) := fold_left (rw_step pred rid pid) items (s, []) in
+  let s2 := match forb with [] => s1 | _ => forbid wid forb s1 end in
+  let s3 := if get_truthy s_required (cst_w s2) then s2 else emit wid (MDel s_required) s2 in
+  if get_truthy s_properties (cst_w s3) then s3 else emit wid (MDel s_properties) s3.
+
+(* converter.py:11-42 to_json_schema(schema, copy=, is_response_schema=) at allocation counter n *)
+Definition to_json_schema (copy resp : bool) (n : N) (t : pv) : cst :=
+  let '(w, n1) := if copy then deepclone n t else (t, n) in
+  match w with
+  | PD wid _ =>
+      if match d_get s_type w with Some v => atom_is_str s_object v | None => false end
+      then rewrite_properties (if resp then is_write_only else is_read_only) wid (w, [], n1)
+      else (w, [], n1)
+  | _ => (w, [], n1)
+  end.
+
+(* core/transforms.py:66 transform(schema, to_json_schema, ...) = converter.to_json_schema_recursive.
+   The callback result w is then updated in place: w[key] = transform(sub_item); lists are rebuilt. *)
+Fixpoint transform (fuel : nat) (copy resp : bool) (n : N) (t : pv) : option cst :=
+  match fuel with
+  | O => None
+  | S f =>
+    match t with
+    | PA _ => Some (t, [], n)
+    | PL _ xs =>
+        match (fix go (n : N) (l : list pv) : option (list pv * wlog * N) :=
+                 match l with
+                 | [] => Some ([], [], n)
+                 | x :: r =>
+                     match transform f copy resp n x with
+                     | None => None
+                     | Some (x', lx, n1) =>
+                         match go n1 r with
+                         | None => None
+                         | Some (r', lr, n2) => Some (x' :: r', lx ++ lr, n2)
+                         end
+                     end
+                 end) (n + 1)%N xs with
+        | None => None
+        | Some (xs', lg, n') => Some (PL n xs', lg, n')
+        end
+    | PD _ _ =>
+        let '(w, lg0, n1) := to_json_schema copy resp n t in
+        match w with
+        | PD wid kv =>
+            (fix go (w : pv) (lg : wlog) (n : N) (items : list (str * pv)) : option cst :=
+               match items with
+               | [] => Some (w, lg, n)
+               | (k, _) :: r =>
+                   match d_get k w with
+                   | None => go w lg n r
+                   | Some sub =>
+                       match transform f copy resp n sub with
+                       | None => None
+                       | Some (c, lgc, n1) =>
+                           go (upd wid (MSet k c) (apply_log lgc w)) (lg ++ lgc ++ [(wid, MSet k c)]) n1 r
+                       end
+                   end
+               end) w lg0 n1 kv
+        | _ => Some (w, lg0, n1)
+        end
+    end
+  end.
+
+(* references.py:83 InliningResolver.resolve_all over the raw document: new containers everywhere, a dict with a string
+   $ref is replaced by the (inlined) target.  The raw document is seen as a dict  reference text -> object  (store).
+   None: fuel exhausted or unresolvable reference (RefResolutionError). *)
+Fixpoint inline (fuel : nat) (store : pv) (n : N) (t : pv) : option (pv * N) :=
+  match fuel with
+  | O => None
+  | S f =>
+    match t with
+    | PA _ => Some (t, n)
+    | PL _ xs =>
+        match (fix go (n : N) (l : list pv) : option (list pv * N) :=
+                 match l with
+                 | [] => Some ([], n)
+                 | x :: r =>
+                     match inline f store n x with
+                     | None => None
+                     | Some (x', n1) => match go n1 r with None => None | Some (r', n2) => Some (x' :: r', n2) end
+                     end
+                 end) (n + 1)%N xs with
+        | None => None
+        | Some (xs', n') => Some (PL n xs', n')
+        end
+    | PD _ kv =>
+        match assoc_get s_ref kv with
+        | Some (PA (AStr r)) =>
+            match d_get r store with
+            | Some target => inline f store n target
+            | None => None
+            end
+        | _ =>
+            match (fix go (n : N) (l : list (str * pv)) : option (list (str * pv) * N) :=
+                     match l with
+                     | [] => Some ([], n)
+                     | (k, x) :: r =>
+                         match inline f store n x with
+                         | None => None
+                         | Some (x', n1) => match go n1 r with None => None | Some (r', n2) => Some ((k, x') :: r', n2) end
+                         end
+                     end) (n + 1)%N kv with
+            | None => None
+            | Some (kv', n') => Some (PD n kv', n')
+            end
+        end
+    end
+  end.
+
+(* A history on one loaded schema.  The state is the raw document (store); nothing else is shared between the steps.
+   EvConvert loc resp : to_json_schema_recursive is called on the raw object at loc
+                        (ConvertingResolver.resolve(loc) while a response is validated: resp = true;
+                         get_response_schema on an inline response schema: resp = true)
+   EvInit body        : an operation with this request body schema is initialised and its generation schema is built
+                        (resolve_all, then OpenAPIBody.as_json_schema = to_json_schema_recursive, request direction).
+   EvComponents loc   : rewritten_components converts the raw object at loc: transform(deepclone(object), callback with copy = False).
+   copy = the flag to_json_schema is called with by the first two call sites (the code: always true). *)
+Inductive event := EvConvert (loc : str) (resp : bool) | EvInit (body : json) | EvComponents (loc : str).
+
+(* the allocation counter a conversion starts from only has to be above every live identity *)
+Definition gen_schema (fuel : nat) (copy : bool) (store : pv) (body : json) : option cst :=
+  let '(b, n1) := label (bound store) body in
+  match inline fuel store n1 b with
+  | None => None
+  | Some (b', n2) => transform fuel copy false (N.max (N.max n2 (bound b')) (bound store)) b'
+  end.
+
+Definition step (fuel : nat) (copy : bool) (store : pv) (ev : event) : option pv :=
+  match ev with
+  | EvConvert loc resp =>
+      match d_get loc store with
+      | None => Some store
+      | Some doc =>
+          match transform fuel copy resp (bound store) doc with
+          | None => None
+          | Some (_, lg, _) => Some (apply_log lg store)
+          end
+      end
+  | EvInit body =>
+      match gen_schema fuel copy store body with
+      | None => Some store
+      | Some (_, lg, _) => Some (apply_log lg store)
+      end
+  | EvComponents loc =>
+      match d_get loc store with
+      | None => Some store
+      | Some doc =>
+          let '(c, n1) := deepclone (bound store) doc in
+          match transform fuel false false n1 c with
+          | None => None
+          | Some (_, lg, _) => Some (apply_log lg store)
+          end
+      end
+  end.
+
+Fixpoint run (fuel : nat) (copy : bool) (store : pv) (h : list event) : option pv :=
+  match h with
+  | [] => Some store
+  | ev :: h' => match step fuel copy store ev with None => None | Some s' => run fuel copy s' h' end
+  end.
+
+(* what the harness evaluates against the real functions: (erased result, erased input after the call) *)
+Definition level_io (copy resp : bool) (j : json) : json * json :=
+  let '(s, n) := label 1%N j in
+  let '(r, lg, _) := to_json_schema copy resp n s in (erase r, erase (apply_log lg s)).
+Definition conv_io (fuel : nat) (copy resp : bool) (j : json) : option (json * json) :=
+  let '(s, n) := label 1%N j in
+  match transform fuel copy resp n s with
+  | None => None
+  | Some (r, lg, _) => Some (erase r, erase (apply_log lg s))
+  end.
+(* the store after the history, and the generation schema of an operation initialised then *)
+Definition history_io (fuel : nat) (copy : bool) (storej : json) (h : list event) (body : json) : option (json * option json) :=
+  let '(s, _) := label 1%N storej in
+  match run fuel copy s h with
+  | None => None
+  | Some s' => Some (erase s', match gen_schema fuel copy s' body with Some (r, _, _) => Some (erase r) | None => None end)
+  end.
+(* schemas.py:731 rewritten_components (local references only): transform(deepclone(components), callback with copy = False) *)
+Definition clone_conv_io (fuel : nat) (j : json) : option (json * json) :=
+  let '(s, n) := label 1%N j in
+  let '(c, n1) := deepclone n s in
+  match transform fuel false false n1 c with
+  | None => None
+  | Some (r, lg, _) => Some (erase r, erase (apply_log lg s))
   end.
